@@ -105,7 +105,7 @@ def leaves(n):
         "trifact_pd_lower", "trifact_pd_upper",
         "dense_def_pos", "dense_def_neg", "dense_def_neg_factor", "dense_pd", "dense_pd_factor",
         "dense_pd_product", "dense_pd_product_inner",
-        "dense_square", "dense_square_lu", "inv_lu", "inv_lu_transposed",
+        "dense_square", "dense_square_lu", "dense_square_lu_transposed", "inv_lu", "inv_lu_transposed",
         "dense_sym", "dense_sym_eig", "orthogonal", "orthogonal_reflect", "scaled_orthogonal",
         "eig_sym", "eig_pd", "softabs_diag",
         "blockdiag_square", "blockdiag_sym", "blockdiag_pd",
@@ -183,7 +183,7 @@ def make_leaf(M, mk, kind, n, tag="a"):
             return M.DensePositiveDefiniteProductMatrix(R), R @ R.T
         d = mk.arr(p + "_pd", n + 1, "pos")
         return M.DensePositiveDefiniteProductMatrix(R, M.PositiveDiagonalMatrix(d)), R @ np.diag(d) @ R.T
-    if kind in ("dense_square", "dense_square_lu", "inv_lu", "inv_lu_transposed"):
+    if kind in ("dense_square", "dense_square_lu", "dense_square_lu_transposed", "inv_lu", "inv_lu_transposed"):
         A = mk.arr(p + "_a", (n, n))
         mk.require(_nz(det(A)))
         if kind == "dense_square":
@@ -191,6 +191,10 @@ def make_leaf(M, mk, kind, n, tag="a"):
         if kind == "dense_square_lu":
             lu = _lu(M, A, mk)
             return M.DenseSquareMatrix(A, lu, False), A
+        if kind == "dense_square_lu_transposed":
+            # precomputed factorisation of the TRANSPOSE (what M.T of a factorised matrix carries)
+            lu = _lu(M, A.T.copy(), mk)
+            return M.DenseSquareMatrix(A, lu, True), A
         if kind == "inv_lu":
             lu = _lu(M, A, mk)
             return M.InverseLUFactoredSquareMatrix(A, lu, inv_lu_transposed=False), inv(A)
